@@ -3384,7 +3384,15 @@ class MaybeAlignPartitions(Expr):
             or all(
                 dfs[0].divisions == df.divisions and df.known_divisions for df in dfs
             )
-            or len(self.divisions) == 2
+            or (
+                # a single partition on all sides
+                len(self.divisions) == 2
+                and all(df.npartitions == 1 for df in dfs)
+                and (
+                    self.divisions[0] is None
+                    or all(tuple(df.divisions) == tuple(self.divisions) for df in dfs)
+                )
+            )
         ):
             return self._expr_cls(*self.operands)
         elif self.divisions[0] is None:
@@ -3563,10 +3571,44 @@ class OpAlignPartitions(MaybeAlignPartitions):
         dfs = self.args
         if (
             len(dfs) == 1
-            or all(dfs[0].divisions == df.divisions for df in dfs)
-            or len(self.divisions) == 2
+            or all(
+                dfs[0].divisions == df.divisions and df.known_divisions for df in dfs
+            )
+            or (
+                # a single partition on all sides
+                len(self.divisions) == 2
+                and all(df.npartitions == 1 for df in dfs)
+                and (
+                    self.divisions[0] is None
+                    or all(tuple(df.divisions) == tuple(self.divisions) for df in dfs)
+                )
+            )
         ):
             return self._op(self.frame, self.op, self.other, *self.operands[3:])
+        elif self.divisions[0] is None:
+            # We have to shuffle
+            npartitions = max(df.npartitions for df in dfs)
+            dtypes = {df._meta.index.dtype for df in dfs}
+            if not _are_dtypes_shuffle_compatible(dtypes):
+                raise TypeError(
+                    "DataFrames are not aligned. We need to shuffle to align partitions "
+                    "with each other. This is not possible because the indexes of the "
+                    f"DataFrames have differing dtypes={dtypes}. Please ensure that "
+                    "all Indexes have the same dtype or align manually for this to "
+                    "work."
+                )
+
+            from dask_expr._shuffle import RearrangeByColumn
+
+            frame, other = (
+                (
+                    RearrangeByColumn(df, None, npartitions, index_shuffle=True)
+                    if any(df is x for x in dfs)
+                    else df
+                )
+                for df in (self.frame, self.other)
+            )
+            return self._op(frame, self.op, other, *self.operands[3:])
 
         from dask_expr._repartition import RepartitionDivisions
 
